@@ -58,7 +58,7 @@ deriving DecidableEq, Repr, Inhabited
 
 /-- the ways the modelled code can end other than by returning -/
 inductive Err where
-  | lookupError          -- escapes from `_readUrl` (only `UnicodeDecodeError` is caught there) and from `parseString`
+  | lookupError          -- escapes from `parseString` for a root sheet given as bytes with an unknown `encoding=`
   | unicodeDecodeError   -- escapes from `parseString` for the root sheet (documented)
   | outOfFuel            -- not a Python outcome: the import chain is longer than the fuel
 deriving DecidableEq, Repr, Inhabited
@@ -118,11 +118,11 @@ structure Choice where
   enctype : Nat
 deriving DecidableEq, Repr, Inhabited
 
-/-- `codec.detectencoding_unicode(content)` / `codec.detectencoding_str(content)` — called WITHOUT `final`
-(`util.py:937-940`) -/
+/-- `codec.detectencoding_unicode(content, final=True)` / `codec.detectencoding_str(content, final=True)`
+(`util.py:937-944`): the content is complete -/
 def contentDetect : Content → Option (Enc × Bool)
-  | .text t => detectUnicode t false
-  | .bytes b => detect b false
+  | .text t => detectUnicode t true
+  | .bytes b => detect b true
 
 /-- `util.py:929-953`, the ladder -/
 def choose (override http parent : Option Name) (c : Content) : Choice :=
@@ -144,29 +144,28 @@ def fixFinal (t : Text) (enc : Name) : Text :=
 structure ReadOk where
   encoding : Name
   enctype : Nat
-  text : Option Text           -- `None` after a `UnicodeDecodeError` (`util.py:968-970`)
+  text : Option Text           -- `None` after a `UnicodeDecodeError` or `LookupError` (`util.py:972-975`)
 deriving DecidableEq, Repr, Inhabited
 
-/-- `util.py:955-970`: text is returned as it is; bytes go through the css codec with the chosen encoding -/
-def decodeContent (w : World) (c : Content) (enc : Name) : Except Err (Option Text) :=
+/-- `util.py:959-975`: text is returned as it is; bytes go through the css codec with the chosen encoding; content
+that does not decode, or an encoding the runtime does not know, gives `None` (a warning is logged, nothing raises) -/
+def decodeContent (w : World) (c : Content) (enc : Name) : Option Text :=
   match c with
-  | .text t => .ok (some t)
+  | .text t => some t
   | .bytes b =>
     match w.dec enc b with
-    | .ok t => .ok (some (fixFinal t enc))
-    | .unicodeError => .ok none
-    | .lookupError => .error .lookupError
+    | .ok t => some (fixFinal t enc)
+    | .unicodeError => none
+    | .lookupError => none
 
 /-- `_readUrl(url, fetcher, overrideEncoding, parentEncoding)` given the fetcher's answer `r`;
-`none` = `(None, None, None)` -/
-def readUrl (w : World) (r : FetchRes) (override parent : Option Name) : Except Err (Option ReadOk) :=
+`none` = `(None, None, None)`. It has no way to raise. -/
+def readUrl (w : World) (r : FetchRes) (override parent : Option Name) : Option ReadOk :=
   match r with
   | .pair http c =>
     let ch := choose override http parent c
-    match decodeContent w c ch.encoding with
-    | .ok t => .ok (some ⟨ch.encoding, ch.enctype, t⟩)
-    | .error e => .error e
-  | _ => .ok none
+    some ⟨ch.encoding, ch.enctype, decodeContent w c ch.encoding⟩
+  | _ => none
 
 /-! ## sheets while they are being loaded -/
 
@@ -318,9 +317,8 @@ def loadChild (w : World) : Nat → Nat → ChildLoader
       .ok ⟨false, ⟨[], [failedRec d u p]⟩⟩                          -- 'Recursive @import.' (no fetch)
     else
       match readUrl w (w.fetch u) s.override p with
-      | .error e => .error e
-      | .ok none => .ok ⟨false, ⟨[u], [failedRec d u p]⟩⟩           -- 'Cannot read Stylesheet.'
-      | .ok (some r) =>
+      | none => .ok ⟨false, ⟨[u], [failedRec d u p]⟩⟩               -- 'Cannot read Stylesheet.'
+      | some r =>
         match r.text with
         | none => .ok ⟨false, ⟨[u], [failedRec d u p]⟩⟩
         | some t =>
@@ -361,32 +359,36 @@ def decodeRoot (w : World) (input : Content) (enc : Option Name) : Except Err Te
     | .unicodeError => .error .unicodeDecodeError
     | .lookupError => .error .lookupError
 
-/-- `CSSParser(fetcher).parseString(input, encoding=enc, href=href)` -/
+/-- `CSSParser.__parseString(text, encodingOverride=eo, encoding=en, href, …)` after the decoding
+(`parse.py:140-169`): `eo` was given by the caller and governs the imports too, `en` was found for this sheet only -/
+def parseText (w : World) (fuel : Nat) (t : Text) (eo en : Option Name) (href : Option Url) : Except Err Parsed :=
+  -- `sheet._setCssTextWithEncodingOverride(tokens, encodingOverride=eo, encoding=en)`
+  match parseItems w (loadChild w fuel 1) (w.view t) 0 ⟨beginEO ⟨href, [], none, none, []⟩ eo en, ⟨[], []⟩⟩ with
+  | .error e => .error e
+  | .ok st =>
+    match finishEO w st eo en with
+    | .error e => .error e
+    | .ok st' => .ok ⟨t, reported st'.sheet.rules, ownCharsetOf st.sheet.rules, st'.sheet.rules, st'.out⟩
+
+/-- `CSSParser(fetcher).parseString(input, encoding=enc, href=href)` (`parse.py:112-138`) -/
 def parseString (w : World) (fuel : Nat) (input : Content) (enc : Option Name) (href : Option Url) :
     Except Err Parsed :=
   match decodeRoot w input enc with
   | .error e => .error e
-  | .ok t =>
-    -- `sheet._setCssTextWithEncodingOverride(tokens, encodingOverride=encoding)` (`parse.py:153-156`)
-    match parseItems w (loadChild w fuel 1) (w.view t) 0 ⟨beginEO ⟨href, [], none, none, []⟩ enc none, ⟨[], []⟩⟩ with
-    | .error e => .error e
-    | .ok st =>
-      match finishEO w st enc none with
-      | .error e => .error e
-      | .ok st' => .ok ⟨t, reported st'.sheet.rules, ownCharsetOf st.sheet.rules, st'.sheet.rules, st'.out⟩
+  | .ok t => parseText w fuel t enc none href
 
-/-- `CSSParser(fetcher).parseUrl(href, encoding=enc)`; `none` = returns `None` -/
+/-- `CSSParser(fetcher).parseUrl(href, encoding=enc)` (`parse.py:206-240`); `none` = returns `None` -/
 def parseUrl (w : World) (fuel : Nat) (href : Url) (enc : Option Name) : Except Err (Option Parsed) :=
   match readUrl w (w.fetch href) enc none with
-  | .error e => .error e
-  | .ok none => .ok none
-  | .ok (some r) =>
+  | none => .ok none
+  | some r =>
     match r.text with
     | none => .ok none
     | some t =>
-      -- `if enctype == 5: encoding = None` — every other outcome of the ladder is handed on AS AN OVERRIDE
-      let enc' : Option Name := if r.enctype = 5 then none else some r.encoding
-      match parseString w fuel (.text t) enc' (some href) with
+      -- only an encoding given by the caller (enctype 0) is an override; one found for the sheet (1..4) is its own
+      let eo : Option Name := if r.enctype = 0 then some r.encoding else none
+      let en : Option Name := if 0 < r.enctype ∧ r.enctype < 5 then some r.encoding else none
+      match parseText w fuel t eo en (some href) with
       | .error e => .error e
       | .ok p => .ok (some { p with out := ⟨href :: p.out.log, p.out.recs⟩ })
 
